@@ -197,6 +197,9 @@ def history(draw):
             # the incremental update names a second, unrelated tree (with a
             # younger TIMESTAMP) after this one
             'decoy': draw(st.integers(0, 3)) == 0,
+            # directory mtimes put back to P + this (rsync -a, tar -x, cp -a
+            # do that): the history speaks of file mtimes only
+            'dirs_back': draw(st.sampled_from([None, None, -100, 0])),
             'advance': draw(st.sampled_from([0.1, 0.3, 0.5, 1, 2, 60, 3600, 19800,
                                              28800, 43200, 50400, 100000])),
         })
@@ -416,6 +419,13 @@ def run_case(desc):
                     more[A] = (D,)
                     now = max(now, dclock.now) + 1.5
                     classes.append('second-tree-in-the-same-invocation')
+            if rnd.get('dirs_back') is not None:
+                for r in (A, B):
+                    for dp, dn, fn in os.walk(r, topdown=False):
+                        os.utime(dp, (P + rnd['dirs_back'],) * 2)
+                classes.append('directory-mtimes-set-back')
+                if any(c == 'add' for c in classes):
+                    nontrivial = True
             for r, args in ((A, ['update', '-i']), (B, ['update'])):
                 clocks[r].now = now
                 oc, env = run_cli(r, clocks[r], tz, args, more=more[r])
